@@ -9,6 +9,7 @@ import (
 	"strconv"
 	"strings"
 	"sync"
+	"time"
 
 	"github.com/dop251/goja"
 
@@ -100,6 +101,7 @@ type lsRec struct {
 	tracker   []string
 	states    []lsSlotState // per slot; state -1: slot empty
 	err       error
+	panicked  string
 	jobQueue  int
 	ticks     int64
 	startedAt int64
@@ -458,25 +460,32 @@ func (h *lsHost) runMacrotask(t *lsTask, callable bool, fault, pos int, fromZ bo
 	if fault == lfDepth {
 		rt.SetMaxCallStackSize(pos)
 	}
-	switch t.kind {
-	case mtTask:
-		if callable {
-			f, _ := goja.AssertFunction(rt.Get("T" + strconv.Itoa(t.arg)))
-			_, rec.err = f(goja.Undefined())
-		} else {
-			_, rec.err = rt.RunProgram(lsTaskProgs[t.arg])
+	func() {
+		defer func() {
+			if x := recover(); x != nil {
+				rec.panicked = fmt.Sprintf("%T %v", x, x) // a Go panic went through the runtime to the host
+			}
+		}()
+		switch t.kind {
+		case mtTask:
+			if callable {
+				f, _ := goja.AssertFunction(rt.Get("T" + strconv.Itoa(t.arg)))
+				_, rec.err = f(goja.Undefined())
+			} else {
+				_, rec.err = rt.RunProgram(lsTaskProgs[t.arg])
+			}
+		case mtTimer:
+			h.timers[t.arg].fired = true
+			_, rec.err = t.fn(goja.Undefined())
+		case mtGoSettle:
+			h.pending--
+			f := h.gres[t.arg]
+			if t.intent.rej {
+				f = h.grej[t.arg]
+			}
+			rec.err = f(h.goValue(t.intent.val.k, t.intent.val.n))
 		}
-	case mtTimer:
-		h.timers[t.arg].fired = true
-		_, rec.err = t.fn(goja.Undefined())
-	case mtGoSettle:
-		h.pending--
-		f := h.gres[t.arg]
-		if t.intent.rej {
-			f = h.grej[t.arg]
-		}
-		rec.err = f(h.goValue(t.intent.val.k, t.intent.val.n))
-	}
+	}()
 	if fault == lfDepth {
 		rt.SetMaxCallStackSize(1<<31 - 1)
 	}
@@ -527,6 +536,7 @@ func (e *loopsim) Run(t *core.Tape, want bool) *core.Result {
 	h.gres = make([]func(interface{}) error, prog.nGo)
 	h.grej = make([]func(interface{}) error, prog.nGo)
 	h.install()
+	rt.SetTimeSource(func() time.Time { return time.UnixMilli(h.now) }) // Date, if anything used it, would read the simulated clock
 	prevTick := goja.VerifTick
 	goja.VerifTick = func(r *goja.Runtime) {
 		if r == rt {
@@ -608,6 +618,9 @@ func (e *loopsim) Run(t *core.Tape, want bool) *core.Result {
 		if rec.fired || rec.err != nil {
 			faultsLeft--
 		}
+		if rec.panicked != "" {
+			break // the runtime is not required to be usable after a Go panic went through it
+		}
 	}
 	res.SimTimeMs = h.now
 	res.Steps = h.total
@@ -654,6 +667,7 @@ func (e *loopsim) Run(t *core.Tape, want bool) *core.Result {
 		sigParts = append(sigParts, sb.String())
 	}
 	res.Sig = strings.Join(sigParts, "|")
+	res.Steps += model.jobs
 	res.NonTrivial = res.Counters["nontrivial-drains"] > 0 || res.Counters["faults-fired"] > 0
 	delete(res.Counters, "nontrivial-drains")
 	delete(res.Counters, "faults-fired")
@@ -741,6 +755,9 @@ func (e *loopsim) judge(m *lmodel, recs []*lsRec, res *core.Result, count bool) 
 		}
 		faultName := lfNames[rec.fault]
 
+		if rec.panicked != "" {
+			return fail("unexpected-error", "go-panic", "a Go panic reached the host: %s", core.Trunc(rec.panicked, 300))
+		}
 		// (6) faults: the documented error comes back, nothing of the drain runs afterwards
 		if rec.fired {
 			var ie *goja.InterruptedError
@@ -918,6 +935,9 @@ func (e *loopsim) render(p *lprog, src string, recs []*lsRec, bad *lsBad) string
 		}
 		if rec.fired {
 			fmt.Fprintf(&sb, " [raised after host call %d]", rec.firedAt)
+		}
+		if rec.panicked != "" {
+			fmt.Fprintf(&sb, "\n    GO PANIC: %s", core.Trunc(rec.panicked, 300))
 		}
 		fmt.Fprintf(&sb, "\n    -> %s, %d VM ticks, jobQueue=%d\n    events : %s\n", core.Trunc(lsErrDesc(rec.err), 200), rec.ticks, rec.jobQueue, strings.Join(rec.events, " "))
 		if len(rec.tracker) > 0 {
